@@ -116,7 +116,14 @@ def gen_op(R: Draw, g: DocGen, lib: Any, doc_node: Any, kinds: list[str] | None 
                 a = R.int(blocks[i][0], blocks[i][1])
                 b = R.int(max(a, blocks[j][0]), blocks[j][1]) if blocks[j][1] >= a else a
         if kind == "add_mark":
-            return {"op": kind, "from": a, "to": b, "mark": g.mark(R, R.choice(rs.mark_names))}
+            mname = R.choice(rs.mark_names)
+            if use and R.bool(0.6):
+                # a mark that interacts with marks already present: same type (other attrs), excludes / is excluded
+                present = sorted({mk_.type.name for _, nd in _node_positions(doc_node) for mk_ in nd.marks})
+                inter = [m for m in rs.mark_names if m in present or any(rs.excludes(m, x) or rs.excludes(x, m) for x in present)]
+                if inter:
+                    mname = R.choice(inter)
+            return {"op": kind, "from": a, "to": b, "mark": g.mark(R, mname)}
         how = R.weighted([("mark", 4), ("type", 3), ("all", 2)])
         m = None
         if use:
